@@ -1,7 +1,7 @@
 """U3 -- XSSI junk header: decoder::{HeaderState, StripHeaderReader, is_junk_json, StripHeaderReader::{new, read,
 strip_head_read}, strip_junk_header}"""
 import re
-from .common import emit_struct, emit_method, refpat_for, impl_header
+from .common import emit_struct, emit_method, refpat_for, impl_header, emit_free_fn, guarded
 
 NAME = 'u3_header'
 PROPS = ['C12', 'C05']
@@ -22,8 +22,7 @@ def build(u):
     u.prelude('derive_eq_headerstate.rs')
     u.spec('header.rs')
 
-    f = u.get_fn(D, 'is_junk_json')
-    u.emit_fn(f, 'decoder::is_junk_json')
+    emit_free_fn(u, D, 'is_junk_json', 'decoder::is_junk_json')
 
     emit_method(u, D, r'<R: Read> StripHeaderReader<R>', 'new', 'decoder::StripHeaderReader::new')
 
@@ -35,13 +34,13 @@ def build(u):
 
     # R-trait-inherent: the body of `impl Read for StripHeaderReader<R>::read` is verified as an inherent
     # method (Verus accepts no extra ensures on an impl of an external trait); text unchanged
-    f = u.get_fn(D, 'read', impl=r'<R: Read> Read for StripHeaderReader<R>')
     u.count('R-trait-inherent')
-    u.emit_fn(f, 'decoder::StripHeaderReader::read', wrap=('impl<R: Read> StripHeaderReader<R> {', '}'))
+    guarded(u, 'decoder::StripHeaderReader::read', lambda: u.get_fn(D, 'read', impl=r'<R: Read> Read for StripHeaderReader<R>'), None,
+            wrap=lambda: ('impl<R: Read> StripHeaderReader<R> {', '}'))
 
-    f = u.get_fn(D, 'strip_junk_header')
-    refpat_for(f, u)
-    u.count('R-shim-call', f.rewrite(r'\.enumerate\(\)', '.verif_enumerate()', expect=1))
-    u.count('R-shim-call', f.rewrite(r'\bio::Error::new\(', 'verif_io_error_new(', expect=1))
-    u.count('R-continue', f.drop_tail_continues())
-    u.emit_fn(f, 'decoder::strip_junk_header')
+    def prep_sjh(f):
+        refpat_for(f, u)
+        u.count('R-shim-call', f.rewrite(r'\.enumerate\(\)', '.verif_enumerate()', expect=1))
+        u.count('R-shim-call', f.rewrite(r'\bio::Error::new\(', 'verif_io_error_new(', expect=1))
+        u.count('R-continue', f.drop_tail_continues())
+    emit_free_fn(u, D, 'strip_junk_header', 'decoder::strip_junk_header', prep=prep_sjh)
